@@ -15,6 +15,12 @@ From IV Require Import Generated.GoCoresC05.
 From Coq Require Import ZifyBool.
 Ltac Zify.zify_post_hook ::= Z.div_mod_to_equations.
 
+(* The proofs below are SEMANTIC: they unfold the generated definitions (all of them, also helpers
+   extracted by a refactor: gnorm = autounfold with gcores) and the model, split one case per test and
+   close arithmetic with lia; loop lemmas take the loop condition and body as functions with
+   tactic-proved extensional equations.  See design-notes/go2coq.md, robustness. *)
+Ltac tie_side := intros; first [ reflexivity | solve [gnorm; tie_cases] ].
+
 (* the model keeps c.deltas reversed together with its length and first element *)
 Definition chunk_of (large diff : bool) (deltas : list Z) : TwccChunk.chunk :=
   TwccChunk.mkChunk large diff (Z.of_nat (length deltas)) (hd 0 deltas) (rev deltas).
@@ -23,8 +29,9 @@ Definition chunk_of (large diff : bool) (deltas : list Z) : TwccChunk.chunk :=
 Lemma gen_twcc_canAdd_eq large diff deltas d :
   g_twcc_chunk_canAdd large diff deltas d = TwccChunk.can_add (chunk_of large diff deltas) d.
 Proof.
-  unfold g_twcc_chunk_canAdd, TwccChunk.can_add, chunk_of.
-  cbn [TwccChunk.c_n TwccChunk.c_large TwccChunk.c_diff TwccChunk.c_first]. rewrite g_idx_0_hd. reflexivity.
+  gnorm. unfold TwccChunk.can_add, chunk_of.
+  cbn [TwccChunk.c_n TwccChunk.c_large TwccChunk.c_diff TwccChunk.c_first]. rewrite ?g_idx_0_hd. unfold g_len.
+  destruct large, diff; cbn [negb andb orb]; tie_cases.
 Qed.
 
 (* chunk.add *)
@@ -32,19 +39,17 @@ Lemma gen_twcc_chunk_add_eq large diff deltas d :
   let '(l', d', ds') := g_twcc_chunk_add large diff deltas d in
   chunk_of l' d' ds' = TwccChunk.chunk_add (chunk_of large diff deltas) d.
 Proof.
-  unfold g_twcc_chunk_add, TwccChunk.chunk_add, chunk_of.
-  cbn [TwccChunk.c_n TwccChunk.c_large TwccChunk.c_diff TwccChunk.c_first TwccChunk.c_rev]. cbv zeta.
-  rewrite g_idx_0_hd, app_length, rev_app_distr. cbn [length rev app].
-  destruct deltas as [|x tl]; cbn [hd app length]; f_equal; lia.
+  gnorm. unfold TwccChunk.chunk_add, chunk_of.
+  cbn [TwccChunk.c_n TwccChunk.c_large TwccChunk.c_diff TwccChunk.c_first TwccChunk.c_rev]. cbv beta iota zeta.
+  rewrite ?g_idx_0_hd, ?app_length, ?rev_app_distr. cbn [length rev app].
+  destruct deltas as [|x tl]; cbn [hd app length]; f_equal; tlia.
 Qed.
 
 (* reading deltas[0] never panics in canAdd / add *)
 Lemma gen_twcc_chunk_safe large diff deltas d :
   g_twcc_chunk_canAdd_safe large diff deltas d = true /\ g_twcc_chunk_add_safe large diff deltas d = true.
 Proof.
-  unfold g_twcc_chunk_canAdd_safe, g_twcc_chunk_add_safe, g_len. cbv zeta. split.
-  - repeat match goal with |- context [if ?c then _ else _] => destruct c eqn:? end; auto; lia.
-  - rewrite app_length. cbn [length]. destruct (diff || _) eqn:E; [reflexivity|lia].
+  split; gnorm; unfold g_len; rewrite ?app_length; cbn [length]; tie_cases.
 Qed.
 
 (* feedback.setBase: the four fields written *)
@@ -52,58 +57,59 @@ Lemma gen_twcc_setBase_eq seq t :
   g_twcc_feedback_setBase seq t =
     (TwccChunk.f_base (TwccChunk.fb_new seq t), TwccChunk.f_ref (TwccChunk.fb_new seq t),
      TwccChunk.f_last (TwccChunk.fb_new seq t), TwccChunk.f_next (TwccChunk.fb_new seq t)).
-Proof. reflexivity. Qed.
+Proof.
+  first [ reflexivity
+        | gnorm; unfold TwccChunk.fb_new; cbn [TwccChunk.f_base TwccChunk.f_ref TwccChunk.f_last TwccChunk.f_next]; tie_cases ].
+Qed.
 
 (* packetArrivalTimeMap.Clamp *)
 Lemma gen_twcc_Clamp_eq a b e ent sn :
   g_twcc_packetArrivalTimeMap_Clamp b e sn = ArrivalMap.am_clamp (ArrivalMap.mkAmap a b e ent) sn.
-Proof. reflexivity. Qed.
+Proof.
+  first [ reflexivity
+        | gnorm; unfold ArrivalMap.am_clamp; cbn [ArrivalMap.m_begin ArrivalMap.m_end]; tie_cases ].
+Qed.
 
 (* packetArrivalTimeMap.get (with index, capacity) on the concrete circular buffer *)
 Lemma gen_twcc_get_eq buf b e sn : (exists k, 0 <= k /\ g_len buf = 2 ^ k) ->
   g_twcc_packetArrivalTimeMap_get buf b e sn = ArrivalMap.cm_get (ArrivalMap.mkCmap buf b e) sn /\
   g_twcc_packetArrivalTimeMap_get_safe buf b e sn = true.
 Proof.
-  intros (k & Hk & L).
-  unfold g_twcc_packetArrivalTimeMap_get, g_twcc_packetArrivalTimeMap_get_safe, ArrivalMap.cm_get,
-    g_twcc_packetArrivalTimeMap_index, g_twcc_packetArrivalTimeMap_capacity, ArrivalMap.cm_index, ArrivalMap.cm_cap.
-  cbn [ArrivalMap.cm_begin ArrivalMap.cm_end ArrivalMap.cm_buf]. fold (g_len buf). rewrite L, land_pow2m1 by lia.
-  assert (0 < 2 ^ k) by (apply Z.pow_pos_nonneg; lia).
-  destruct ((sn <? b) || (sn >=? e)); split; auto. lia.
+  intros (k & Hk & L). assert (0 < 2 ^ k) by (apply Z.pow_pos_nonneg; lia). unfold g_len in L.
+  split; gnorm; unfold ArrivalMap.cm_get, ArrivalMap.cm_index, ArrivalMap.cm_cap, g_idx, g_len;
+    cbn [ArrivalMap.cm_begin ArrivalMap.cm_end ArrivalMap.cm_buf]; rewrite ?L, ?land_pow2m1 by lia; tie_cases.
 Qed.
+
+(* from here on get / index are used through the lemma above: autounfold leaves them alone *)
+#[local] Opaque g_twcc_packetArrivalTimeMap_get g_twcc_packetArrivalTimeMap_get_safe.
 
 (* packetArrivalTimeMap.HasReceived *)
 Lemma gen_twcc_HasReceived_eq buf b e sn : (exists k, 0 <= k /\ g_len buf = 2 ^ k) ->
   g_twcc_packetArrivalTimeMap_HasReceived buf b e sn = (ArrivalMap.cm_get (ArrivalMap.mkCmap buf b e) sn >=? 0) /\
   g_twcc_packetArrivalTimeMap_HasReceived_safe buf b e sn = true.
 Proof.
-  intros H. unfold g_twcc_packetArrivalTimeMap_HasReceived, g_twcc_packetArrivalTimeMap_HasReceived_safe.
-  destruct (gen_twcc_get_eq buf b e sn H) as [-> ->]. auto.
+  intros H. destruct (gen_twcc_get_eq buf b e sn H) as [E1 E2].
+  split; gnorm; rewrite ?E1, ?E2; tie_cases.
 Qed.
 
 Lemma upd_nat_list_set l : forall n v, g_upd_nat l n v = ArrivalMap.list_set l n v.
 Proof. induction l as [|x l IH]; intros [|n] v; simpl; auto; rewrite IH; reflexivity. Qed.
 
-Lemma upd_land_list_set buf k sn v : 0 <= k -> g_len buf = 2 ^ k ->
-  g_upd buf (Z.land sn (g_len buf - 1)) v = ArrivalMap.list_set buf (Z.to_nat (sn mod g_len buf)) v.
-Proof. intros Hk L. unfold g_upd. rewrite L, land_pow2m1 by lia. apply upd_nat_list_set. Qed.
-
 Lemma list_set_length l : forall n v, length (ArrivalMap.list_set l n v) = length l.
 Proof. induction l as [|x l IH]; intros [|n] v; simpl; auto. Qed.
 
-(* packetArrivalTimeMap.setNotReceived *)
+(* packetArrivalTimeMap.setNotReceived: loop specification.  The loop is any g_while over (sn, buf) whose
+   condition holds below z and whose body stores -1 at the slot of sn and advances sn by one *)
 Lemma set_not_received_while b e z k (c : Z * list Z -> bool) (f : Z * list Z -> Z * list Z) : 0 <= k ->
-  (forall sn buf, c (sn, buf) = (sn <? z)) ->
-  (forall sn buf, f (sn, buf) = (sn + 1, g_upd buf (g_twcc_packetArrivalTimeMap_index buf sn) (-1))) ->
+  (forall sn buf, sn < z -> c (sn, buf) = true) ->
+  (forall sn buf, sn < z -> g_len buf = 2 ^ k -> f (sn, buf) = (sn + 1, g_upd buf (sn mod 2 ^ k) (-1))) ->
   forall n sn buf, g_len buf = 2 ^ k -> z - sn = Z.of_nat n ->
     snd (g_while n c f (sn, buf)) = ArrivalMap.cm_buf (ArrivalMap.cm_clear n sn (ArrivalMap.mkCmap buf b e)).
 Proof.
   intros Hk Hc Hf. induction n as [|n IH]; intros sn buf L E; [reflexivity|].
-  cbn [g_while ArrivalMap.cm_clear]. rewrite Hc. replace (sn <? z) with true by lia. rewrite Hf.
-  unfold g_twcc_packetArrivalTimeMap_index, g_twcc_packetArrivalTimeMap_capacity.
-  rewrite (upd_land_list_set buf k sn (-1) Hk L).
+  cbn [g_while ArrivalMap.cm_clear]. rewrite Hc, Hf by (auto; lia).
   unfold ArrivalMap.cm_store, ArrivalMap.cm_index, ArrivalMap.cm_cap. cbn [ArrivalMap.cm_buf ArrivalMap.cm_begin ArrivalMap.cm_end].
-  fold (g_len buf). apply IH; [|lia].
+  fold (g_len buf). rewrite L. unfold g_upd. rewrite upd_nat_list_set. apply IH; [|lia].
   unfold g_len in *. rewrite list_set_length. exact L.
 Qed.
 
@@ -111,41 +117,46 @@ Lemma gen_twcc_setNotReceived_eq buf b e a z : (exists k, 0 <= k /\ g_len buf = 
   g_twcc_packetArrivalTimeMap_setNotReceived buf a z =
     ArrivalMap.cm_buf (ArrivalMap.cm_set_not_received (ArrivalMap.mkCmap buf b e) a z).
 Proof.
-  intros (k & Hk & L). unfold g_twcc_packetArrivalTimeMap_setNotReceived, ArrivalMap.cm_set_not_received. cbv zeta.
+  intros (k & Hk & L). gnorm. unfold ArrivalMap.cm_set_not_received.
   destruct (Z_le_gt_dec z a) as [Le|Gt].
   - replace (Z.to_nat (z - a)) with O by lia. reflexivity.
   - match goal with |- context [g_while ?n ?c ?f ?s] =>
-      pose proof (set_not_received_while b e z k c f Hk (fun _ _ => eq_refl) (fun _ _ => eq_refl) n a buf L ltac:(lia)) as W;
+      assert (Hc : forall sn buf, sn < z -> c (sn, buf) = true) by (intros; cbv beta iota zeta; tlia);
+      assert (Hf : forall sn buf0, sn < z -> g_len buf0 = 2 ^ k -> f (sn, buf0) = (sn + 1, g_upd buf0 (sn mod 2 ^ k) (-1)))
+        by (intros sn0 buf0 ? L0; cbv beta iota zeta; unfold g_len in *; rewrite ?L0, ?land_pow2m1 by lia; reflexivity);
+      pose proof (set_not_received_while b e z k c f Hk Hc Hf n a buf L ltac:(lia)) as W;
       destruct (g_while n c f s) as [sn1 buf1] end.
     exact W.
 Qed.
 
 (* packetArrivalTimeMap.reallocate: the new buffer *)
-Lemma reallocate_while old b e j newCap (c : Z * list Z -> bool) (f : Z * list Z -> Z * list Z) :
-  (exists k, 0 <= k /\ g_len old = 2 ^ k) -> 0 <= j -> newCap = 2 ^ j ->
-  (forall sn buf, c (sn, buf) = (sn <? e)) ->
-  (forall sn buf, f (sn, buf) = (sn + 1, g_upd buf (Z.land sn (newCap - 1)) (g_twcc_packetArrivalTimeMap_get old b e sn))) ->
+Lemma reallocate_while old b e j (c : Z * list Z -> bool) (f : Z * list Z -> Z * list Z) :
+  (exists k, 0 <= k /\ g_len old = 2 ^ k) -> 0 <= j ->
+  (forall sn buf, sn < e -> c (sn, buf) = true) ->
+  (forall sn buf, sn < e -> f (sn, buf) = (sn + 1, g_upd buf (sn mod 2 ^ j) (g_twcc_packetArrivalTimeMap_get old b e sn))) ->
   forall n sn buf, e - sn = Z.of_nat n ->
-    snd (g_while n c f (sn, buf)) = ArrivalMap.cm_copy n sn (ArrivalMap.mkCmap old b e) newCap buf.
+    snd (g_while n c f (sn, buf)) = ArrivalMap.cm_copy n sn (ArrivalMap.mkCmap old b e) (2 ^ j) buf.
 Proof.
-  intros P Hj -> Hc Hf. induction n as [|n IH]; intros sn buf E; [reflexivity|].
-  cbn [g_while ArrivalMap.cm_copy]. rewrite Hc. replace (sn <? e) with true by lia. rewrite Hf.
+  intros P Hj Hc Hf. induction n as [|n IH]; intros sn buf E; [reflexivity|].
+  cbn [g_while ArrivalMap.cm_copy]. rewrite Hc, Hf by lia.
   destruct (gen_twcc_get_eq old b e sn P) as [-> _].
-  unfold g_upd. rewrite land_pow2m1, upd_nat_list_set by lia. apply IH. lia.
+  unfold g_upd. rewrite upd_nat_list_set. apply IH. lia.
 Qed.
 
 Lemma gen_twcc_reallocate_eq old b e j : (e <= b \/ exists k, 0 <= k /\ g_len old = 2 ^ k) -> 0 <= j ->
   g_twcc_packetArrivalTimeMap_reallocate old b e (2 ^ j) =
     ArrivalMap.cm_buf (ArrivalMap.cm_reallocate (ArrivalMap.mkCmap old b e) (2 ^ j)).
 Proof.
-  intros P Hj. unfold g_twcc_packetArrivalTimeMap_reallocate, ArrivalMap.cm_reallocate, g_zeros. cbv zeta.
+  intros P Hj. gnorm. unfold ArrivalMap.cm_reallocate, g_zeros.
   cbn [ArrivalMap.cm_buf ArrivalMap.cm_begin ArrivalMap.cm_end].
   destruct (Z_le_gt_dec e b) as [Le|Gt].
   - replace (Z.to_nat (e - b)) with O by lia. reflexivity.
   - destruct P as [P|P]; [lia|].
     match goal with |- context [g_while ?n ?c ?f ?s] =>
-      pose proof (reallocate_while old b e j (2 ^ j) c f P Hj eq_refl (fun _ _ => eq_refl) (fun _ _ => eq_refl) n b
-                    (repeat 0 (Z.to_nat (2 ^ j))) ltac:(lia)) as W;
+      assert (Hc : forall sn buf, sn < e -> c (sn, buf) = true) by (intros; cbv beta iota zeta; tlia);
+      assert (Hf : forall sn buf, sn < e -> f (sn, buf) = (sn + 1, g_upd buf (sn mod 2 ^ j) (g_twcc_packetArrivalTimeMap_get old b e sn)))
+        by (intros; cbv beta iota zeta; rewrite ?land_pow2m1 by lia; reflexivity);
+      pose proof (reallocate_while old b e j c f P Hj Hc Hf n b (repeat 0 (Z.to_nat (2 ^ j))) ltac:(lia)) as W;
       destruct (g_while n c f s) as [sn1 buf1] end.
     exact W.
 Qed.
